@@ -238,6 +238,16 @@ def run_shard(spec, R):
                         lambda: {"op": "coarsen_constant", "shape": list(shape), "levels": -lv, "payload": payload, "value": cval, "min": float(cc.img.min()), "max": float(cc.img.max())},
                         key=key, group=f"{dim}d/{lv}")
                 R.sig(["coarsen_const", dim, list(shape), lv], True)
+            # ... and non-constant data on the same (possibly odd) extents: the physical integral is preserved
+            rimg, rarr, rdims = image(shape, payload=payload, dtype=np.float64)
+            ok, rc = R.guarded("uniform_refinement", lambda: darsia.uniform_refinement(rimg, -lv), key=lambda e, w: key)
+            if ok:
+                i_in, mag = integral(rarr, rdims, dim)
+                i_c, _ = integral(rc.img, list(rc.dimensions), dim)
+                okey = "C11:coarsening_odd_extent_not_conservative" if odd else None
+                R.check(list(rc.dimensions) == list(rdims) and bool(np.all(np.abs(i_c - i_in) <= 1e-12 * np.maximum(mag, 1e-300))), "coarsen_conserves",
+                        lambda: {"op": "coarsen", "shape": list(shape), "levels": -lv, "payload": payload, "odd_extent_at_some_level": odd,
+                                 "integral_in": np.asarray(i_in).tolist(), "integral_out": np.asarray(i_c).tolist()}, key=okey, group=f"{dim}d/{lv}/any_extent")
 
         # ======================================================= axis reduction
         for rep in range(3):
